@@ -140,3 +140,23 @@ package fragswarm
 //@     assert arg2.Src == x.Src && arg2.Dst == x.Dst && arg2.Payload == data
 //@   before call (*TellHub).Deliver#1:
 //@     assert arg2.Src == x.Src && arg2.Dst == x.Dst
+
+// ---- closing: the receive loops end by closing the tell hub (Close cancels them and closes the inner swarm)
+
+//@ func (*swarm).recvLoops
+//@   noframe
+//@   requires s != nil && inv(s.tells)
+//@   ensures [hubclosed] closed(old(s.tells.closed))
+//@   fnspec WithContext:
+//@     ensures inv(s.tells)
+//@     preserves s.tells.closed
+//@   fnspec Receive:
+//@     ensures inv(s.tells)
+//@     preserves s.tells.closed
+//@   loop 0:
+//@     invariant inv(s.tells) && s.tells.closed == old(s.tells.closed)
+//@
+//@ func (*swarm).recvLoops$1
+//@   inline
+//@   loop 0:
+//@     invariant inv(s.tells) && s.tells.closed == old(s.tells.closed)
